@@ -162,6 +162,13 @@ Record cfg (L Raw : Type) := {
   hashf : bytes -> bytes (* SHA-512/256 *);
   sig_ok : bytes -> bytes -> bytes -> bool (* Ed25519 verify pk digest sig *);
   blacklisted : bytes -> bool;
+  (* ed25519.VerifyOptions (signature.go:75-82, regenerated: Gen.SigOptions): whether a
+     small-order public key A / commitment R is tolerated, and the (abstract)
+     tests "this encoding decodes to a point of order 1, 2, 4 or 8" *)
+  allow_small_A : bool;
+  allow_small_R : bool;
+  small_order_A : bytes -> bool;
+  small_order_R : bytes -> bool;
   addr_of : bytes -> N (* staking.NewAddress *);
   reserved : N -> bool;
   is_system : bytes -> bool;
@@ -184,6 +191,10 @@ Arguments dec_tx {L Raw}.
 Arguments hashf {L Raw}.
 Arguments sig_ok {L Raw}.
 Arguments blacklisted {L Raw}.
+Arguments allow_small_A {L Raw}.
+Arguments allow_small_R {L Raw}.
+Arguments small_order_A {L Raw}.
+Arguments small_order_R {L Raw}.
 Arguments addr_of {L Raw}.
 Arguments reserved {L Raw}.
 Arguments is_system {L Raw}.
@@ -208,6 +219,11 @@ Section Deliver.
   Definition verify (e : envelope) : bool :=
     (blen (e_sig e) =? 64) &&
     negb ((blacklisted C) (e_pk e)) &&
+    (* curve25519-voi VerifyWithOptions: small-order checks before the equation.
+       With a small-order A the equation holds for EVERY message once
+       [8][S]B = [8]R, so "signed by A" means nothing: authenticity needs the reject. *)
+    (allow_small_A C || negb (small_order_A C (e_pk e))) &&
+    (allow_small_R C || negb (small_order_R C (e_sig e))) &&
     match prepare (SEP C) (txc C) None (chain C) with
     | None => false
     | Some rc => (sig_ok C) (e_pk e) (hashf C (rc ++ e_blob e)) (e_sig e)
